@@ -84,6 +84,8 @@ pub enum Pay {
     Excess,
     WrongDenom,
     ExtraCoin,
+    /// the exact deposit coin listed twice in the funds (cw20 deposits: as Exact)
+    Twice,
 }
 
 #[derive(Clone, Copy, Debug, Serialize, Deserialize, PartialEq)]
@@ -245,11 +247,12 @@ fn pmsgs(prop: &str) -> BoxedStrategy<Vec<PMsg>> {
     match prop {
         "C05" => proptest::collection::vec(
             prop_oneof![
-                8 => Just(PMsg::Record),
-                3 => (actor(), 0u32..60).prop_map(|(to, amt)| PMsg::BankSend { to, amt }),
-                2 => pref().prop_map(PMsg::ReExecute),
-                1 => pref().prop_map(PMsg::ReVote),
-                1 => pref().prop_map(PMsg::ReClose),
+                16 => Just(PMsg::Record),
+                6 => (actor(), 0u32..60).prop_map(|(to, amt)| PMsg::BankSend { to, amt }),
+                1 => (actor(), 1u32..60, any::<bool>()).prop_map(|(to, amt, padded)| PMsg::BankSend { to: if padded { 200 + to } else { 100 + to }, amt }),
+                4 => pref().prop_map(PMsg::ReExecute),
+                2 => pref().prop_map(PMsg::ReVote),
+                2 => pref().prop_map(PMsg::ReClose),
             ],
             0..4,
         )
@@ -272,7 +275,7 @@ fn pmsgs(prop: &str) -> BoxedStrategy<Vec<PMsg>> {
 
 fn pay(prop: &str) -> BoxedStrategy<Pay> {
     if prop == "C15" {
-        prop_oneof![12 => Just(Pay::Exact), 2 => Just(Pay::None), 2 => Just(Pay::Short), 2 => Just(Pay::Excess), 1 => Just(Pay::WrongDenom), 1 => Just(Pay::ExtraCoin)].boxed()
+        prop_oneof![12 => Just(Pay::Exact), 2 => Just(Pay::None), 2 => Just(Pay::Short), 2 => Just(Pay::Excess), 1 => Just(Pay::WrongDenom), 1 => Just(Pay::ExtraCoin), 1 => Just(Pay::Twice)].boxed()
     } else {
         // a quarter of the flex multisigs of the other properties require a deposit too; it is mostly paid
         prop_oneof![8 => Just(Pay::Exact), 1 => Just(Pay::None)].boxed()
@@ -404,10 +407,24 @@ pub fn mcase_strategy(prop: &str, tier: Tier) -> BoxedStrategy<MCase> {
                     ]
                 })
                 .boxed();
+            // C06: a proposal is voted through, the group then grows by a heavy member, the voting period runs
+            // out, and only then somebody executes
+            let grown = (by_member(), proptest::collection::vec(any::<u16>(), 2..5), actor(), prop_oneof![Just(50u64), Just(1u64 << 32), 6u64..100], by_member())
+                .prop_map(|(by, votes, a, wt, executor)| {
+                    let mut g = vec![Op::Propose { by, msgs: vec![], latest: Latest::None, pay: Pay::Exact }];
+                    for k in votes {
+                        g.push(Op::Vote { by: By::Fresh(k), prop: Target::Any(u16::MAX), vote: 0 });
+                    }
+                    g.push(Op::GroupUpdate { add: vec![(a, wt)], remove: vec![] });
+                    g.push(Op::ToExpiry { prop: u16::MAX, delta: 0 });
+                    g.push(Op::Execute { by: executor, prop: Target::Any(u16::MAX) });
+                    g
+                })
+                .boxed();
             let groups = if prop_s == "C05" {
                 prop_oneof![12 => single, 3 => campaign, 2 => retry, 1 => twice].boxed()
             } else if prop_s == "C06" {
-                prop_oneof![12 => single, 3 => campaign, 1 => long_haul, 1 => leaver].boxed()
+                prop_oneof![12 => single, 3 => campaign, 1 => long_haul, 1 => leaver, 1 => grown].boxed()
             } else {
                 prop_oneof![12 => single, 3 => campaign].boxed()
             };
@@ -1093,7 +1110,10 @@ pub fn run_mcase(prop: &str, case: &MCase, ctx: &mut CaseCtx) -> Result<(), Viol
                     .enumerate()
                     .map(|(i, m)| match m {
                         PMsg::Record => WasmMsg::Execute { contract_addr: w.recorder.to_string(), msg: to_json_binary(&RecExec::Record { tag, idx: i as u32 }).unwrap(), funds: vec![] }.into(),
-                        PMsg::BankSend { to, amt } => BankMsg::Send { to_address: w.actors[*to as usize % N_ACTORS].to_string(), amount: coins(*amt as u128, SPEND_DENOM) }.into(),
+                                // (recipient indices from 100: the actor's address spelled in upper case; from 200: with blanks
+                        // around it - other strings than the actor's address: whatever the bank makes of them, the payment
+                        // is dispatched as written and the actor's own account gets nothing)
+                        PMsg::BankSend { to, amt } => BankMsg::Send { to_address: match *to { 200..=u8::MAX => format!(" {} ", w.actors[*to as usize % N_ACTORS]), 100..=199 => w.actors[*to as usize % N_ACTORS].to_string().to_uppercase(), _ => w.actors[*to as usize % N_ACTORS].to_string() }, amount: coins(*amt as u128, SPEND_DENOM) }.into(),
                         PMsg::SpendDeposit { to, amt } => match (&w.cw20, w.deposit.map(|d| d.cw20).unwrap_or(false)) {
                             (Some(tok), true) => WasmMsg::Execute { contract_addr: tok.to_string(), msg: to_json_binary(&Cw20ExecuteMsg::Transfer { recipient: w.actors[*to as usize % N_ACTORS].to_string(), amount: Uint128::new(*amt as u128) }).unwrap(), funds: vec![] }.into(),
                             _ => BankMsg::Send { to_address: w.actors[*to as usize % N_ACTORS].to_string(), amount: coins(*amt as u128, DEP_DENOM) }.into(),
@@ -1123,7 +1143,7 @@ pub fn run_mcase(prop: &str, case: &MCase, ctx: &mut CaseCtx) -> Result<(), Viol
                 if let Some(d) = w.deposit {
                     if d.cw20 {
                         let allow = match pay {
-                            Pay::Exact => Some(d.amount),
+                            Pay::Exact | Pay::Twice => Some(d.amount),
                             Pay::Short => Some(d.amount - 1),
                             Pay::Excess => Some(d.amount + 5),
                             _ => None,
@@ -1145,6 +1165,7 @@ pub fn run_mcase(prop: &str, case: &MCase, ctx: &mut CaseCtx) -> Result<(), Viol
                             Pay::Excess => funds = coins(d.amount + 1, DEP_DENOM),
                             Pay::WrongDenom => funds = coins(d.amount.min(5), SPEND_DENOM),
                             Pay::ExtraCoin => funds = vec![Coin::new(d.amount, DEP_DENOM), Coin::new(1u128, SPEND_DENOM)],
+                            Pay::Twice => funds = vec![Coin::new(d.amount, DEP_DENOM), Coin::new(d.amount, DEP_DENOM)],
                         }
                     }
                 }
@@ -1154,7 +1175,8 @@ pub fn run_mcase(prop: &str, case: &MCase, ctx: &mut CaseCtx) -> Result<(), Viol
                 }
                 // proposals without messages all read the same: the same member may well submit the very same
                 // proposal twice in a row (each submission is a proposal of its own, with its own id)
-                let (title, description) = if msgs.is_empty() { ("plain".to_string(), "no messages".to_string()) } else { (format!("t{tag}"), format!("d{tag}")) };
+                // (a description may well be left empty)
+                let (title, description) = if msgs.is_empty() { ("plain".to_string(), if tag % 3 == 0 { String::new() } else { "no messages".to_string() }) } else { (format!("t{tag}"), if tag % 5 == 0 { String::new() } else { format!("d{tag}") }) };
                 let msg = cw3_fixed_multisig::msg::ExecuteMsg::Propose { title, description, msgs: cmsgs, latest: latest_e };
                 let r = exec_as(&mut w.app, w.relay.clone().as_ref(), &w.faucet.clone(), &w.actors[by].clone(), &w.multisig.clone(), &msg, &funds);
                 let id = r.as_ref().ok().and_then(|resp| {
@@ -1605,7 +1627,7 @@ fn oracle_c05(w: &World, pre: &Obs, post: &Obs, done: &Done, models: &mut [PMode
         for (k, pm) in m.msgs.iter().enumerate() {
             match pm {
                 PMsg::Record => expect_log.entry(m.tag).or_default().push(k as u32),
-                PMsg::BankSend { to, amt } => expect_bank[*to as usize % N_ACTORS] += *amt as u128,
+                PMsg::BankSend { to, amt } if *to < 100 => expect_bank[*to as usize % N_ACTORS] += *amt as u128,
                 _ => {}
             }
         }
@@ -1814,6 +1836,15 @@ fn oracle_c06(w: &World, pre: &Obs, post: &Obs, done: &Done, models: &mut [PMode
                 return Err(v(prop, "closed-before-expiry", format!("{at}: proposal {} (expires {:?}, status {:?} before the call) was closed while its snapshot's voters could still vote; members now {:?}, snapshot {:?}", o.id, o.expires, o.status, post.members, models[*i].snap)));
             }
             ctx.count("close_ok_after_expiry");
+        }
+    }
+    // ... and what the ballots decided stands: a proposal reported Passed (C06 proposals carry no messages, so
+    // nothing can go wrong on dispatch) is executable by an authorised caller, however the group has changed since
+    if let Done::Execute { by, target: Some(i), ok: false } = done {
+        let m = &models[*i];
+        let pre_status = pre.props.iter().find(|p| p.id == m.id).map(|p| p.status);
+        if pre_status == Some(Status::Passed) && m.msgs.is_empty() && !m.executed && w.authorised(by, &pre.members) {
+            return Err(v(prop, "passed-not-executable", format!("{at}: proposal {} is reported Passed (total {} in its snapshot; the group now has {:?}) but an authorised Execute was refused", m.id, m.first.total, post.members)));
         }
     }
     if let Done::Vote { by, target: Some(i), ok: false, .. } = done {
@@ -2067,7 +2098,7 @@ pub fn decode_mcase(prop: &str, u: &mut arbitrary::Unstructured) -> MCase {
                     3 => Latest::AtMax(arb_below(u, 5) as i8 - 2),
                     _ => Latest::None,
                 };
-                let pay = if prop == "C15" { [Pay::Exact, Pay::Exact, Pay::Exact, Pay::None, Pay::Short, Pay::Excess, Pay::WrongDenom, Pay::ExtraCoin][arb_below(u, 8)] } else if arb_bool(u, 1, 9) { Pay::None } else { Pay::Exact };
+                let pay = if prop == "C15" { [Pay::Exact, Pay::Exact, Pay::Exact, Pay::None, Pay::Short, Pay::Excess, Pay::WrongDenom, Pay::ExtraCoin, Pay::Twice][arb_below(u, 9)] } else if arb_bool(u, 1, 9) { Pay::None } else { Pay::Exact };
                 Op::Propose { by: d_by(u), msgs, latest, pay }
             }
             3..=7 => Op::Vote { by: d_by(u), prop: d_target(u), vote: [0u8, 0, 0, 1, 1, 2, 3][arb_below(u, 7)] },
